@@ -10,8 +10,32 @@ CHECKS = {}
 NOT_APPLICABLE = {}
 
 
+# axes added to the lattices after the waves of seeded changes (DESIGN.md 7.5 / 7.6); appended to the note of the check
+EXTRA = {
+    "C01": "Also: orders 6-10 (12 thorough) with a reduced menu of mode lists; negative modes for unfold/fold; one caller-owned shape list reused across the calls of a case.",
+    "C02": "Also: depth-2 call histories sharing argument objects; complex weights on real matrices; NumPy-integer indices; sample_khatri_rao with drawn indices (consistency only).",
+    "C03": "Also: factors of mixed real/complex kinds; weighting (non 0/1) masks; 2-D weights and partially invalid PARAFAC2 projections must be rejected.",
+    "C04": "Also: input decomposition unchanged with copy=True; ragged generic slices for SVD compression; per-factor scales 1e-19..1e+19.",
+    "C05": "Also: graded low-rank spectra; data units 1e-9 / 1e+9.",
+    "C06": "Also: size-1 modes; callback that ends the run; mask x sparsity; negative fixed modes; verbose and estimator-class variants; memory of the previous iterate for masked HOOI.",
+    "C07": "Also: memory-efficient MTTKRP registered as backend method; hals_nnls flags nonzero_rows / exact; HOOI with a randomised-SVD generator on a (9,4,4) tensor.",
+    "C08": "Also: user initialisation with non-unit weights; einsum backend; Parafac2 class with its defaults; exceptions on valid requests are violations (whitelist of documented refusals); TT ranks clipped by sizes only; CMTF normalised outputs represent the un-normalised tensors.",
+    "C09": "Also: TensorRing class; Tucker under the einsum backend; two-call histories sharing the rank list; int64 input.",
+    "C10": "Also: estimator classes; einsum backend; fixed mode x subset of declared modes; negative dictionary keys; size-1 modes; the PARAFAC2 line-search step driven directly.",
+    "C11": "Also: falsy list placeholders; NumPy-scalar parameter values; zero-sweep budget; fixed constrained modes; einsum backend and class API.",
+    "C12": "Also: one-column matrices (shape must be preserved for matrix inputs); parameters and flags as NumPy scalars.",
+    "C13": "Also: cold and warm starts, l1 / ridge / both, designs with all-nonpositive least-squares solutions.",
+    "C14": "Also: estimator classes; einsum backend; weights mixing exact ones with other values; constraints whose prox moves the initialisation; the last mode listed together with others.",
+    "C15": "Also: array-valued hyper-parameters (0-d arrays, 1-d coefficient arrays, float defaults passed explicitly); every position of the contracted mode.",
+    "C16": "Also: complex input; 240x260 matrices; callable SVDs; estimators rebuilt from get_params / configured by set_params; same-object refits.",
+    "C18": "Also: data units 1e-9 / 1e6; mask x line search; CP weights of complex data must be complex.",
+    "C19": "Also: refit and failed-refit histories; fit_transform outputs scribbled on by the caller; verbose fits; 1030-sample predictions; zero-channel data; einsum backend.",
+    "C20": "Also: per-method semantics when only some modes are equivalent; zero-row factor matrices; column scalings 1e-6..1e3.",
+}
+
+
 def add(pid, level, technique, text, note, engine="LX"):
-    CHECKS[pid] = dict(level=level, technique=technique, text=text, note=note, engine=engine)
+    CHECKS[pid] = dict(level=level, technique=technique, text=text, note=(note + " " + EXTRA[pid]) if pid in EXTRA else note, engine=engine)
 
 
 add("C01", "exploration",
